@@ -307,6 +307,15 @@ def generate(seed, tier):
             n2 = r.randrange(nn)
             c2 = f"c{hc[0]}r"
             ops.append(["cloads", n2, m, c2])
+            if r.random() < 0.3:
+                # a relay: the node that unpickled it passes it on before ever calling it
+                m2 = f"cm{len(cmsgs)}"
+                ops.append(["cdumps", n2, c2, r.randint(0, 5), m2])
+                cmsgs.append(m2)
+                n3 = r.randrange(nn)
+                c3 = f"c{hc[0]}rr"
+                ops.append(["cloads", n3, m2, c3])
+                ops.append(["call", n3, c3, args])
             ops.append(["call", n2, c2, args])
         elif x < 0.97:
             ops.append(["crash", n, {"zk": r.randrange(K_ZYG), "opt": r.random() < 0.3,
@@ -604,8 +613,9 @@ def execute(scenario, open_sigs):
                 _, _, c, proto, m = op
                 if (n, c) in compiled:
                     r = rq(n, {"op": "cdumps", "c": c, "proto": proto})
-                    cstore[m] = {"bytes": r["bytes"], "what": compiled[(n, c)],
-                                 "seed": node(n).hash_seed}
+                    if r is not None and r.get("bytes"):
+                        cstore[m] = {"bytes": r["bytes"], "what": compiled[(n, c)],
+                                     "seed": node(n).hash_seed}
             elif k == "cloads":
                 _, _, m, c = op
                 if m in cstore:
